@@ -233,6 +233,14 @@ def forms():
     # ---- result types (zero value in the error branch)
     for i, t in enumerate(["unsafe.Pointer", "func() int", "F", "chan int", "map[string]int", "[2]int", "G[int]", "*S", "I", "[]string", "struct{ A int }", "any", "error", "uintptr", "complex128"]):
         add("result-%d" % i, "newR%d" % i, res=t, expect="ok")
+    # ---- top-level variables of type wire.ProviderSet (what `wire check` / `wire show` load)
+    for nm, decl in [("literal", "var TL = wire.ProviderSet{}"), ("no-value", "var TZ wire.ProviderSet"), ("from-func", "func mkSet() wire.ProviderSet { return wire.NewSet() }\nvar TF = mkSet()"),
+                     ("deref-new", "var TP = *new(wire.ProviderSet)"), ("indexed", "var TI = [1]wire.ProviderSet{wire.NewSet()}[0]"), ("parallel", "var TA, TB = wire.NewSet(NewA), wire.NewSet()"),
+                     ("multi-value", "var TM, TN = two()"), ("of-var", "var TV = SetV"), ("paren", "var TQ = (wire.NewSet(NewA))"), ("typed-decl", "var TT wire.ProviderSet = wire.NewSet(NewB)"),
+                     ("pointer", "var TPtr = &wire.ProviderSet{}"), ("in-struct", "var TS = struct{ S wire.ProviderSet }{wire.NewSet()}"), ("unexported", "var tl = wire.NewSet(NewA, NewA)"),
+                     ("bad-set", "var TBad = wire.NewSet(NewA, NewA)"), ("cyclic-set", "func cA(b bb) aa { return 0 }\nfunc cB(a aa) bb { return 0 }\ntype aa int\ntype bb int\nvar TC = wire.NewSet(cA, cB)")]:
+        add("toplevel-" + nm, "NewA", expect="any")
+        F[-1]["decl"] = decl
     # ---- injector shapes
     add("injector-extra-stmt", None, body="_ = 1\n\tpanic(wire.Build(NewA))", key="invalid-injector:diagnostic-without-position")
     add("injector-two-builds", None, body="wire.Build(NewA)\n\twire.Build(NewA)\n\treturn 0", key="invalid-injector:diagnostic-without-position")
@@ -314,7 +322,7 @@ def render(f):
         inj = inj.replace('\t"github.com/google/wire"\n', "")
     elif "wire." not in body:
         inj = inj.replace('\t"github.com/google/wire"\n', '\t_ "github.com/google/wire"\n')
-    return {"p.go": BASE + "\n".join(extra) + "\n", "wire.go": inj}
+    return {"p.go": BASE + "\n".join(extra) + "\n" + (f.get("decl") or "") + "\n", "wire.go": inj}
 
 
 def eng_forms(pid, tier, wd, known, replay=None):
@@ -346,12 +354,20 @@ def eng_forms(pid, tier, wd, known, replay=None):
 
     def one(i):
         try:
-            p = sh([tools["wire"], "gen", "./f%d" % i], cwd=root, env=GOENV, timeout=120)
+            p = sh([tools["wire"], "gen", "./f%d" % i], cwd=root, env=GOENV, timeout=120, mem_gb=6)
+            return i, p.returncode, p.stderr
+        except subprocess.TimeoutExpired:
+            return i, 124, "timeout"
+
+    def one_check(i):
+        try:
+            p = sh([tools["wire"], "check", "./f%d" % i], cwd=root, env=GOENV, timeout=120, mem_gb=6)
             return i, p.returncode, p.stderr
         except subprocess.TimeoutExpired:
             return i, 124, "timeout"
     with ThreadPoolExecutor(max_workers=16) as ex:
         results = list(ex.map(one, range(len(fs))))
+        checks = list(ex.map(one_check, range(len(fs)))) if pid == "C20" else []
     kf = {k["key"]: k for k in known if k.get("status") == "finding"}
     viol, knownl, dist = [], [], {}
     invalid = []
@@ -380,6 +396,22 @@ def eng_forms(pid, tier, wd, known, replay=None):
             else:
                 viol.append(({"property": pid, "kind": "failing-input", "broken": "C20 oracle on the wire binary", "input": {"form": {k: v for k, v in f.items() if not k.startswith("_")}},
                               "rendered_files": render(f), "impl": f["_obs"], "oracle": why, "key": f["key"], "seed": seed()}, True))
+    # the same contract for `wire check` (parse.go:Load also looks at every top-level provider-set variable)
+    for i, rc, err in checks:
+        f = fs[i]
+        panicked = ("goroutine " in err and ("panic:" in err or "fatal error" in err)) or rc == 124 or rc == 2
+        positioned = re.search(r"wire: [^\n]*f%d/[\w.]+:\d+:\d+: " % i, err) is not None
+        dist["check:" + ("panic" if panicked else "ok" if rc == 0 else "diag" if positioned else "no-position")] = dist.get("check:" + ("panic" if panicked else "ok" if rc == 0 else "diag" if positioned else "no-position"), 0) + 1
+        why = []
+        if panicked:
+            why.append("wire check panicked / did not finish on a type-correct package (exit %d)" % rc)
+        elif rc != 0 and not positioned:
+            why.append("wire check: non-zero exit without any diagnostic carrying a position inside the user's sources")
+        if why:
+            if f["key"] in kf and not panicked:
+                continue
+            viol.append(({"property": pid, "kind": "failing-input", "broken": "C20 oracle on the wire binary (check)", "input": {"form": {k: v for k, v in f.items() if not k.startswith("_")}, "command": "check"},
+                          "rendered_files": render(f), "impl": {"exit": rc, "stderr": err[:700]}, "oracle": why, "key": f["key"], "seed": seed()}, True))
     compiled = 0
     if pid == "C01":
         # whatever wire accepted must compile with the generated file standing in for the injector
